@@ -988,6 +988,91 @@ pub mod glue {
         });
     }
 
+    // ---- struct decoders (PacketHeaders / LaxPacketHeaders): link-extension part only.
+    //      The result types carry ~10 KB of header structs, so only the errors raised in front of the
+    //      network layer are decided here (C07 clauses), on stacks of MACsec / VLAN tags whose ether
+    //      types are pinned; the data behind the last tag is an ether type the crate does not decode.
+
+    /// `PacketHeaders::from_ether_type` (strict) / `LaxPacketHeaders::from_ether_type` (stop error)
+    pub fn headers_link_exts<const N: usize, const LAX: bool>(start: u16, shape: fn(&mut [u8; N])) {
+        let mut data: [u8; N] = any();
+        shape(&mut data);
+        let s = &data[..any_le(N)];
+        let w = refm::walk(Start::EtherType(start), s, LAX);
+        // keep the network layer out of it (decided elsewhere; here: offsets of link extension faults)
+        assume(w.net.is_none());
+        if let Some(f) = &w.fault {
+            assume(matches!(f.layer, RL::Vlan | RL::Macsec));
+        }
+        if LAX {
+            let p = LaxPacketHeaders::from_ether_type(EtherType(start), s);
+            assert!(p.stop_err.is_some() == w.fault.is_some(), "C07: stop error does not match the reference fault");
+            if let (Some((e, _layer)), Some(f)) = (&p.stop_err, &w.fault) {
+                witness!(f.off > 0 && s.len() > f.off + f.avail, "7|err_behind_trimmed_data");
+                check_packet_error(e, f);
+            }
+            assert!(p.link_exts.len() == w.n_exts);
+            core::mem::forget(p);
+        } else {
+            match PacketHeaders::from_ether_type(EtherType(start), s) {
+                Ok(p) => {
+                    assert!(w.fault.is_none(), "C03: accepted although the reference rejects");
+                    assert!(p.link_exts.len() == w.n_exts);
+                    core::mem::forget(p);
+                }
+                Err(e) => {
+                    let f = w.fault.expect("C03: rejected although the reference accepts");
+                    witness!(f.off > 0 && s.len() > f.off + f.avail, "7|err_behind_trimmed_data");
+                    check_packet_error(&e, &f);
+                }
+            }
+        }
+    }
+
+    // Stubs for the network-layer decoders of the struct family. The harnesses above ASSUME that the reference
+    // walk reaches no network layer, so these functions are unreachable inside the claim; replacing them by
+    // functions that fail immediately keeps CBMC from exploring the 9 KB IpHeaders values in the three
+    // network arms (which exceeds the memory cap). If one of them were reached, the harness would see an error
+    // the reference does not predict and fail - it cannot turn a wrong result into a pass.
+    pub fn stub_from_ipv4_slice(_s: &[u8]) -> Result<(IpHeaders, IpPayloadSlice<'_>), err::ipv4::SliceError> {
+        Err(err::ipv4::SliceError::Header(err::ipv4::HeaderError::UnexpectedVersion { version_number: 0xff }))
+    }
+    pub fn stub_from_ipv6_slice(_s: &[u8]) -> Result<(IpHeaders, IpPayloadSlice<'_>), err::ipv6::SliceError> {
+        Err(err::ipv6::SliceError::Header(err::ipv6::HeaderError::UnexpectedVersion { version_number: 0xff }))
+    }
+    pub fn stub_arp_from_slice(_s: &[u8]) -> Result<ArpPacket, LenError> {
+        Err(LenError { required_len: usize::MAX, len: 0, len_source: LenSource::Slice, layer: Layer::Arp, layer_start_offset: 0 })
+    }
+
+    pub fn stub_lax_add_ip<'a>(_this: &mut LaxPacketHeaders<'a>, _offset: usize, _slice: &'a [u8]) -> Result<(), err::ip::LaxHeaderSliceError>
+    where
+        'a: 'a, // early-bound, as in `impl<'a> LaxPacketHeaders<'a>`
+    {
+        Err(err::ip::LaxHeaderSliceError::Content(err::ip::HeaderError::UnsupportedIpVersion { version_number: 0xff }))
+    }
+
+    /// MACsec (unmodified, no SCI, symbolic short length) -> VLAN (ether type 0x88b5, not decoded further)
+    pub fn shape_hdr_macsec_vlan<const LAX: bool>() {
+        headers_link_exts::<18, LAX>(refm::ET_MACSEC, |d| {
+            d[0] = 0x00;
+            d[6] = 0x81;
+            d[7] = 0x00;
+            d[10] = 0x88;
+            d[11] = 0xb5;
+        });
+    }
+
+    /// VLAN -> MACsec (unmodified, no SCI, symbolic short length) -> MACsec (any layout)
+    pub fn shape_hdr_vlan_macsec_macsec<const LAX: bool>() {
+        headers_link_exts::<24, LAX>(refm::ET_VLAN, |d| {
+            d[2] = 0x88;
+            d[3] = 0xe5;
+            d[4] = 0x00;
+            d[10] = 0x88;
+            d[11] = 0xe5;
+        });
+    }
+
     // ---- unshaped: every byte symbolic (thorough tier)
     pub fn any_ether_type<const MODE: u8, const N: usize>() {
         let et: u16 = any();
@@ -1026,5 +1111,19 @@ pub mod glue {
         c07_glue_any_ip_48 = any_ip::<7, 48>; unwind 5,
         c07_glue_any_ethernet_48 = any_ethernet::<7, 48>; unwind 5,
         c07_glue_any_sll_44 = any_sll::<7, 44>; unwind 5,
+        #[kani::stub(etherparse::IpHeaders::from_ipv4_slice, stub_from_ipv4_slice)]
+        #[kani::stub(etherparse::IpHeaders::from_ipv6_slice, stub_from_ipv6_slice)]
+        #[kani::stub(etherparse::ArpPacket::from_slice, stub_arp_from_slice)]
+        c07_hdr_macsec_vlan = shape_hdr_macsec_vlan::<false>; unwind 4,
+        #[kani::stub(etherparse::IpHeaders::from_ipv4_slice, stub_from_ipv4_slice)]
+        #[kani::stub(etherparse::IpHeaders::from_ipv6_slice, stub_from_ipv6_slice)]
+        #[kani::stub(etherparse::ArpPacket::from_slice, stub_arp_from_slice)]
+        c07_hdr_vlan_macsec_macsec = shape_hdr_vlan_macsec_macsec::<false>; unwind 5,
+        #[kani::stub(etherparse::LaxPacketHeaders::add_ip, stub_lax_add_ip)]
+        #[kani::stub(etherparse::ArpPacket::from_slice, stub_arp_from_slice)]
+        c07_hdr_macsec_vlan_lax = shape_hdr_macsec_vlan::<true>; unwind 4,
+        #[kani::stub(etherparse::LaxPacketHeaders::add_ip, stub_lax_add_ip)]
+        #[kani::stub(etherparse::ArpPacket::from_slice, stub_arp_from_slice)]
+        c07_hdr_vlan_macsec_macsec_lax = shape_hdr_vlan_macsec_macsec::<true>; unwind 5,
     }
 }
